@@ -51,6 +51,8 @@ impl Property for C08 {
     fn runs(&self, tier: Tier) -> u64 { match tier { Tier::Quick => 80000, Tier::Thorough => 2000000 } }
 
     fn run(&self, src: &mut Src, ctx: &RunCtx) -> RunReport {
+        // one run in 250 starts the server the way `main` of server_persistent does, on real files (see below)
+        if src.below(250) == 0 { return run_server_lifecycle(src, ctx, "C08"); }
         let mut rep = RunReport::default();
         let b = |s: &str| s.as_bytes().to_vec();
         let wal_on = src.chance(1, 2);
@@ -280,4 +282,158 @@ impl Property for C08 {
         rep.sample = Some(json!({"wal": wal_on, "events": events.iter().map(|e| match e { Ev::Write(c) => show_cmd(c), Ev::Remote { key, time, hash, tomb } => format!("remote delta key{} +{}{}{}", key, time, if *hash { " (hash)" } else { "" }, if *tomb { " (tombstone)" } else { "" }), o2 => format!("{:?}", o2) }).collect::<Vec<_>>() }));
         rep
     }
+}
+
+
+static LIFECYCLE_DIRS: std::sync::atomic::AtomicU64 = std::sync::atomic::AtomicU64::new(0);
+
+/// The start-up wiring in the middle of `main` of `src/bin/server_persistent.rs` — object-store recovery through the
+/// integration, replay of the whole WAL, persistence workers and delta sink, WAL actor — copied out verbatim by
+/// build.rs (`sp_bin::verif_startup`) and run as it is: local-filesystem object store and local WAL files in a
+/// private scratch directory. Below the store traits this is real file I/O, so the crash model here is the death
+/// of the process (everything written survives, everything only in memory is gone): each incarnation lives on its
+/// own runtime, which is dropped with all its tasks. With the always-fsync WAL every acknowledged local write must
+/// be served again after any restart; without a WAL that is required after a graceful shutdown (WAL actor first,
+/// then the persistence workers, as `main` does it). In every incarnation a write must get a stamp above whatever
+/// the restarted node holds for the key.
+pub fn run_server_lifecycle(src: &mut Src, ctx: &RunCtx, prop: &'static str) -> RunReport {
+    use crate::model::cluster::repl_config;
+    use crate::model::wire::parse_cmd;
+    use redis_sim::redis::CommandExecutor;
+    let mut rep = RunReport::default();
+    rep.probe("server_startup_wiring_on_real_files");
+    if !crate::sp_bin::STARTUP_AVAILABLE { rep.probe("server_startup_wiring_unavailable"); rep.evals = 1; return rep; }
+    let b = |s: &str| s.as_bytes().to_vec();
+    let wal_on = src.chance(2, 3);
+    // events: 0-5 local write, 6 remote delta, 7 restart after a crash, 8 restart after a graceful shutdown
+    let mut uniq = 0u64;
+    let events: Vec<(u64, Cmd, usize)> = src.list(24, 15, 16, |s| {
+        uniq += 1;
+        let k = s.idx(3);
+        let kind = s.weighted(&[4, 2, 2, 1, 2, 1, 2, 3, 2]) as u64;
+        let c = match kind {
+            0 => vec![b("SET"), b(&format!("k{}", k)), b(&format!("v{}", uniq))],
+            1 => vec![b("APPEND"), b(&format!("k{}", k)), b(&format!("+{}", uniq))],
+            2 => vec![b("INCR"), b("ctr")],
+            3 => vec![b("DEL"), b(&format!("k{}", k))],
+            4 => vec![b("HSET"), b(&format!("h{}", k)), b(&format!("f{}", s.idx(2))), b(&format!("hv{}", uniq))],
+            5 => vec![b("HDEL"), b(&format!("h{}", k)), b(&format!("f{}", s.idx(2)))],
+            _ => vec![],
+        };
+        (kind, c, k)
+    });
+    let trace = ctx.trace;
+    let root = std::env::temp_dir().join(format!("verif-c08-{}-{}", std::process::id(), LIFECYCLE_DIRS.fetch_add(1, std::sync::atomic::Ordering::Relaxed)));
+    let _ = std::fs::remove_dir_all(&root);
+    let (data, wal_dir) = (root.join("data"), root.join("wal"));
+    let mut twin = CommandExecutor::new();
+    let mut tainted: std::collections::BTreeSet<String> = Default::default();
+    let mut judge_values = true;
+    let mut idx = 0usize;
+    let mut incarnation = 0u64;
+    let mut fp = fnv(0x5E, &[wal_on as u8]);
+    for (k, c, _) in &events { fp = fnv(fp, &[*k as u8]); for a in c { fp = fnv(fp, a); } }
+    rep.fingerprint = fp;
+    let mut remote_seq = 0u64;
+    while idx <= events.len() && incarnation < 5 {
+        incarnation += 1;
+        struct Out { viol: Option<(String, String)>, log: Vec<String>, evals: u64, next: usize, graceful: bool, wrote_after_restore: bool, twin: CommandExecutor, tainted: std::collections::BTreeSet<String>, remote_seq: u64 }
+        let (evs, data2, wal2, twin_in, tainted_in) = (events.clone(), data.clone(), wal_dir.clone(), std::mem::replace(&mut twin, CommandExecutor::new()), tainted.clone());
+        let start = idx;
+        let inc = incarnation;
+        let judge = judge_values;
+        let rs_in = remote_seq;
+        let out: Out = rt::block_on(0xC08 + incarnation, async move {
+            let mut o = Out { viol: None, log: vec![], evals: 0, next: evs.len() + 1, graceful: false, wrote_after_restore: false, twin: twin_in, tainted: tainted_in, remote_seq: rs_in };
+            redis_sim::production::verif_hooks::clock::set(1_700_000_000_000 + inc * 60_000);
+            let walcfg = if wal_on { Some(WalConfig { enabled: true, wal_dir: wal2.clone(), fsync_policy: FsyncPolicy::Always, max_file_size: 700, group_commit_max_entries: 8, group_commit_max_wait: Duration::from_micros(50), truncation_check_interval: Duration::from_secs(30) }) } else { None };
+            let (state, handles, wal) = match crate::sp_bin::verif_startup("localfs", data2.clone(), walcfg, repl_config(1, ConsistencyLevel::Eventual)).await {
+                Ok(x) => x,
+                Err(e) => { o.viol = Some((format!("{}/server-startup-failed", prop), format!("incarnation {}: the start-up block of main() failed on its own files: {}", inc, e))); return o; }
+            };
+            async fn view(state: &redis_sim::production::ReplicatedShardedState, key: &str) -> String {
+                let bb = |s: &str| s.as_bytes().to_vec();
+                let g = match parse_cmd(&[bb("GET"), bb(key)]) { Ok(c) => R::from_resp(&state.execute(c).await), Err(e) => R::Err(e) };
+                let h = match parse_cmd(&[bb("HGETALL"), bb(key)]) { Ok(c) => R::from_resp(&state.execute(c).await), Err(e) => R::Err(e) };
+                let h = match h { R::Arr(Some(xs)) if xs.len() % 2 == 0 => { let mut p: Vec<(R, R)> = xs.chunks(2).map(|c| (c[0].clone(), c[1].clone())).collect(); p.sort(); R::Arr(Some(p.into_iter().flat_map(|(a, b)| [a, b]).collect())) } o => o };
+                format!("GET={} HGETALL={}", g.show(), h.show())
+            }
+            fn view_twin(twin: &mut CommandExecutor, key: &str) -> String {
+                let bb = |s: &str| s.as_bytes().to_vec();
+                let g = match parse_cmd(&[bb("GET"), bb(key)]) { Ok(c) => R::from_resp(&twin.execute(&c)), Err(e) => R::Err(e) };
+                let h = match parse_cmd(&[bb("HGETALL"), bb(key)]) { Ok(c) => R::from_resp(&twin.execute(&c)), Err(e) => R::Err(e) };
+                let h = match h { R::Arr(Some(xs)) if xs.len() % 2 == 0 => { let mut p: Vec<(R, R)> = xs.chunks(2).map(|c| (c[0].clone(), c[1].clone())).collect(); p.sort(); R::Arr(Some(p.into_iter().flat_map(|(a, b)| [a, b]).collect())) } o => o };
+                format!("GET={} HGETALL={}", g.show(), h.show())
+            }
+            // ---- what the restarted node serves = what it had acknowledged
+            if inc > 1 && judge {
+                for key in ["k0", "k1", "k2", "h0", "h1", "h2", "ctr"] {
+                    if o.tainted.contains(key) { continue; }
+                    o.evals += 1;
+                    let (got, want) = (view(&state, key).await, view_twin(&mut o.twin, key));
+                    if got != want {
+                        o.viol = Some((format!("{}/server-restart-lost-acknowledged-write", prop), format!("incarnation {} (WAL {}): after the restart the node serves {} for {} but it had acknowledged writes that make it {}", inc, if wal_on { "always-fsync" } else { "off, previous shutdown was graceful" }, got, key, want)));
+                        return o;
+                    }
+                }
+            }
+            let restored: std::collections::BTreeSet<String> = state.snapshot_state().await.keys().cloned().collect();
+            let mut i = start;
+            while i < evs.len() {
+                let (kind, c, k) = evs[i].clone(); i += 1;
+                match kind {
+                    0..=5 => {
+                        let key = String::from_utf8_lossy(&c[1]).into_owned();
+                        let before: Option<LamportClock> = state.snapshot_state().await.get(&key).map(|v| stamps_of(v).into_iter().max().unwrap_or(v.timestamp));
+                        let r = match parse_cmd(&c) { Ok(cmd) => R::from_resp(&state.execute(cmd).await), Err(e) => R::Err(e) };
+                        let rt_ = match parse_cmd(&c) { Ok(cmd) => R::from_resp(&o.twin.execute(&cmd)), Err(e) => R::Err(e) };
+                        if trace { o.log.push(format!("incarnation {}: {} -> {}", inc, show_cmd(&c), r.show())); }
+                        o.evals += 1;
+                        if !o.tainted.contains(&key) && judge && r != rt_ { o.viol = Some((format!("{}/server-reply-differs-from-history", prop), format!("incarnation {}: {} replied {} but given everything this node had acknowledged before it should reply {}", inc, show_cmd(&c), r.show(), rt_.show()))); return o; }
+                        let noop = matches!(kind, 3 | 5) && matches!(r, R::Int(0));
+                        if !noop && !matches!(r, R::Err(_)) {
+                            let after: Option<LamportClock> = state.snapshot_state().await.get(&key).map(|v| stamps_of(v).into_iter().max().unwrap_or(v.timestamp));
+                            if restored.contains(&key) && inc > 1 { o.wrote_after_restore = true; }
+                            if let (Some(bf), Some(af)) = (before, after) {
+                                if af <= bf { o.viol = Some((format!("{}/stamp-not-above-recovered-value", prop), format!("incarnation {} of the server started by main()'s own wiring: {} acknowledged, but the key's greatest stamp went from {} to {}", inc, show_cmd(&c), show(&bf), show(&af)))); return o; }
+                            }
+                        }
+                    }
+                    6 => {
+                        o.remote_seq += 1;
+                        let rid = ReplicaId::new(2);
+                        let name = format!("k{}", k);
+                        let base = state.snapshot_state().await.get(&name).map(|v| stamps_of(v).iter().map(|c| c.time).max().unwrap_or(0)).unwrap_or(0);
+                        let ts = LamportClock { time: base + 1000 * o.remote_seq, replica_id: rid };
+                        state.apply_remote_deltas(vec![ReplicationDelta::new(name.clone(), ReplicatedValue::with_value(SDS::from_str(&format!("remote{}", o.remote_seq)), ts), rid)]);
+                        let _ = state.snapshot_state().await;
+                        o.tainted.insert(name); // a received update is not made durable by the receiving node
+                    }
+                    _ => { o.graceful = kind == 8; o.next = i; break; }
+                }
+            }
+            if o.graceful {
+                // `main`'s shutdown order: WAL actor first, then the persistence workers
+                if let Some((h, join, tick)) = wal { if let Some(t) = tick { t.abort(); } h.shutdown().await; let _ = join.await; }
+                if let Some(h) = handles { h.shutdown().await; }
+            }
+            redis_sim::production::verif_hooks::clock::clear();
+            o
+        });
+        rep.trace.extend(out.log);
+        rep.evals += out.evals;
+        twin = out.twin; tainted = out.tainted; remote_seq = out.remote_seq;
+        if out.wrote_after_restore { rep.probe("write_after_restart_same_key"); rep.nontrivial = true; }
+        if let Some((k, m)) = out.viol { rep.violate(k, m); break; }
+        if out.next > events.len() { break; }
+        idx = out.next;
+        *rep.faults.entry(if out.graceful { "server_graceful_restart" } else { "server_process_killed_and_restarted" }).or_insert(0) += 1;
+        // without a WAL only a graceful shutdown makes everything durable; after a kill the values are no longer judged
+        if !wal_on && !out.graceful { judge_values = false; }
+    }
+    redis_sim::production::verif_hooks::clock::clear();
+    let _ = std::fs::remove_dir_all(&root);
+    rep.evals = rep.evals.max(1);
+    rep.sample = Some(json!({"mode": "server start-up wiring on real files", "wal": wal_on, "events": events.iter().map(|(k, c, _)| match k { 0..=5 => show_cmd(c), 6 => "remote delta".to_string(), 7 => "kill + restart".to_string(), _ => "graceful shutdown + restart".to_string() }).collect::<Vec<_>>() }));
+    rep
 }
